@@ -93,10 +93,17 @@ impl SymbolTable {
         self.contexts.len() > 1
     }
 
+    /// The number of symbols defined in the outermost scope of the global context
+    pub fn globals_defined(&self) -> usize {
+        self.contexts[0].symbols[0].len()
+    }
+
     /// Leaves every function context and every nested scope that is still open (after a failed compilation)
-    pub fn reset_to_global(&mut self) {
+    /// and forgets the globals that were defined after there were `globals_defined` of them
+    pub fn reset_to_global(&mut self, globals_defined: usize) {
         self.contexts.truncate(1);
         self.contexts[0].symbols.truncate(1);
+        self.contexts[0].symbols[0].truncate(globals_defined);
     }
 
     /// Create a new context to define symbols in.
